@@ -149,4 +149,9 @@ theorem run_conforms_stageA (cfg : CompCfg) (n : Node) (cp : Compiled) (F : Val 
     ∃ N, ∀ fuel, N ≤ fuel → RunAgrees (run c (progOf cp) fuel) (Spec.run (specOf c) cfg.cast n) :=
   run_conforms_gen hc hF hfl hg hfit henv (fun _ _ _ _ _ _ _ _ _ _ _ _ h => h.elim)
 
+example (c : Cfg) : ∃ N, ∀ fuel, N ≤ fuel →
+    RunAgrees (run c (progOf exCompiledA) fuel) (Spec.run (specOf c) none exTreeA) :=
+  run_conforms_stageA {} exTreeA exCompiledA (fun _ => False) c exA_compiles (fun _ _ h => h.elim) exA_floats
+    exA_good exA_fits (fun h => by cases h)
+
 end ExprModel.C01
